@@ -1,5 +1,121 @@
 package main
 
-// Paillier-based protocols through the same generic machinery, with a cached modulus.
+// Paillier-based protocols through the same generic machinery, with a cached modulus
+// (corpus/c08/paillier_primes.txt: two 512-bit primes; test-only).  Covered: the n-th-root
+// protocol (Maurer instance with the non-trivial anchor u = x, l = N).  The other
+// Paillier / ring-Pedersen / CGGMP21 proofs are listed as not covered in the spec.
 
-func (h *harness) paillier(flipBudget int) {}
+import (
+	"fmt"
+	"math/big"
+	"os"
+	"path/filepath"
+	"strings"
+
+	"github.com/bronlabs/bron-crypto/pkg/base/nt/modular"
+	"github.com/bronlabs/bron-crypto/pkg/base/nt/num"
+	"github.com/bronlabs/bron-crypto/pkg/base/nt/numct"
+	"github.com/bronlabs/bron-crypto/pkg/base/nt/znstar"
+	"github.com/bronlabs/bron-crypto/pkg/proofs/paillier/nthroot"
+	"github.com/bronlabs/bron-crypto/pkg/proofs/sigma"
+	"github.com/bronlabs/bron-crypto/pkg/proofs/sigma/compiler"
+	"github.com/bronlabs/bron-crypto/pkg/proofs/sigma/compiler/fiatshamir"
+
+	"verif/harness/internal/vh"
+)
+
+func loadPrimes() (p, q *big.Int, err error) {
+	root := os.Getenv("VERIF_ROOT")
+	if root == "" {
+		root = "/verif"
+	}
+	b, err := os.ReadFile(filepath.Join(root, "corpus", "c08", "paillier_primes.txt"))
+	if err != nil {
+		return nil, nil, err
+	}
+	for _, l := range strings.Split(string(b), "\n") {
+		if v, ok := strings.CutPrefix(l, "p="); ok {
+			p = vh.UnZHex(strings.TrimSpace(v))
+		}
+		if v, ok := strings.CutPrefix(l, "q="); ok {
+			q = vh.UnZHex(strings.TrimSpace(v))
+		}
+	}
+	if p == nil || q == nil {
+		return nil, nil, fmt.Errorf("primes file incomplete")
+	}
+	return p, q, nil
+}
+
+func (h *harness) paillier(flipBudget int) {
+	pb, qb, err := loadPrimes()
+	if err != nil {
+		h.res.Note("Paillier n-th-root protocol skipped: %v", err)
+		return
+	}
+	r := vh.NewRng(h.a.Seed, "C08", "paillier", 0)
+	mkNat := func(x *big.Int) *num.NatPlus {
+		return must(num.NPlus().FromNatCT(numct.NewNatFromBig(x, x.BitLen())))
+	}
+	g := must(znstar.NewPaillierGroup(mkNat(pb), mkNat(qb)))
+	rec := &recReader{r: r}
+	proto := must(nthroot.NewProtocol(g, rec))
+	n := g.N().Big()
+	mk := func() (*nthroot.Statement[*modular.OddPrimeSquareFactors], *nthroot.Witness[*modular.OddPrimeSquareFactors]) {
+		y := r.BigBelow(n)
+		if y.Sign() == 0 {
+			y.SetInt64(2)
+		}
+		yn := numct.NewNatFromBig(y, n.BitLen())
+		var xn numct.Nat
+		g.Arithmetic().ExpToN(&xn, yn)
+		x := must(g.FromNatCT(&xn))
+		w := must(g.FromNatCT(yn))
+		return must(nthroot.NewStatement(x)), must(nthroot.NewWitness(w))
+	}
+	x, w := mk()
+	x2, _ := mk()
+	c := mkCase("nthroot/paillier1024", proto, rec, x, w, x2, 32)
+	// sigma level on the implementation alone: rewinding, extractor (anchor u = x, l = N), simulator
+	L := proto.GetChallengeBytesLength()
+	for _, e1 := range challenges(r, L) {
+		e2 := r.Bytes(L)
+		a, st, err := proto.ComputeProverCommitment(x, w)
+		if err != nil {
+			panic(err)
+		}
+		z1 := must(proto.ComputeProverResponse(x, w, a, st, e1))
+		z2 := must(proto.ComputeProverResponse(x, w, a, st, e2))
+		cs := fmt.Sprintf("sigma nthroot e1=%s e2=%s", vh.Hex(e1), vh.Hex(e2))
+		h.res.Count("sigma-verify/nthroot", cs, true)
+		if proto.Verify(x, a, e1, z1) != nil || proto.Verify(x, a, e2, z2) != nil {
+			h.prop("sigma-verify/nthroot", cs, "honest transcript rejected", "maurer_complete")
+		}
+		if proto.Verify(x2, a, e1, z1) == nil && new(big.Int).SetBytes(e1).Sign() != 0 {
+			h.prop("sigma-verify/nthroot", cs, "transcript accepted for another statement", "sigma verifier")
+		}
+		h.res.Count("sigma-extract/nthroot", cs, true)
+		wx, err := proto.Extract(x, a, []sigma.ChallengeBytes{e1, e2}, []*nthroot.Response[*modular.OddPrimeSquareFactors]{z1, z2})
+		d := new(big.Int).Sub(new(big.Int).SetBytes(e1), new(big.Int).SetBytes(e2))
+		coprime := new(big.Int).GCD(nil, nil, n, new(big.Int).Abs(d)).Cmp(big.NewInt(1)) == 0 && d.Sign() != 0
+		if coprime && err != nil {
+			h.prop("sigma-extract/nthroot", cs, "extractor failed on two accepting transcripts with gcd(N, e1-e2) = 1: "+err.Error(), "maurer_special_sound")
+		}
+		if err == nil && proto.ValidateStatement(x, wx) != nil {
+			h.prop("sigma-extract/nthroot", cs, "extractor output is not an N-th root of the statement", "maurer_special_sound")
+		}
+		as, zs, err := proto.RunSimulator(x, e1)
+		h.res.Count("sigma-simulate/nthroot", cs, true)
+		if err != nil || proto.Verify(x, as, e1, zs) != nil {
+			h.prop("sigma-simulate/nthroot", cs, "simulated transcript does not verify", "maurer_simulator_verifies")
+		}
+	}
+	comps := []compiler.Name{fiatshamir.Name}
+	if h.thorough || h.a.Search {
+		comps = c.compilers
+	}
+	for _, comp := range comps {
+		h.niCase(c, comp, 0, r, false, flipBudget)
+	}
+	h.interactive(c, 0, r)
+}
